@@ -143,6 +143,8 @@ def build(t):
         return ops.Transpose(ch[0])
     if k == "Adjoint":
         return ops.Adjoint(ch[0])
+    if k == "SelfProd":
+        return ops.Product(ch[0], ch[0])     # the very same object twice
     if k in ("GramT", "GramH", "GramHr"):
         A = ch[0]  # ONE object on both sides: the inference rule tests identity
         if k == "GramT":
